@@ -80,6 +80,8 @@ func (c *CriteriaMixing) Apply(
 	targetValRange := model.ValuesRangeWithGroundZero(&allAlternatives, referenceCriterion)
 	mixResult := c2m.mix(&allAlternatives, targetValRange, parsedProps)
 	newCriterion := c2m.criterion(targetValRange)
+	// mixing the same pair again must not reuse the id of the criterion added before
+	newCriterion.Id = current.Criteria.NotUsedName(newCriterion.Id)
 	criterionParams := (*listener).OnCriterionAdded(&newCriterion, referenceCriterion, current.MethodParameters, generator)
 	newMethodParams := (*listener).Merge(current.MethodParameters, criterionParams)
 	newAlternatives := updateAlternatives(allAlternatives, newCriterion, mixResult)
